@@ -216,32 +216,33 @@ def firstSuffix (opts : List Str) (s : Str) : Str × Str :=
   | some o => (o, s.drop o.length)
   | none => ([], s)
 
-/-- `part_type` on the text after the name -/
+/-- the ordered type patterns of `part_type`, on the text after the leading blanks -/
+def partTypeCore (t : Str) : R (Kind × TyInfo × Str) :=
+  match stripPrefix? "bool".toList t with
+  | some t' => .ok (.typed .bool, {}, t')
+  | none => match stripPrefix? "str".toList t with
+    | some t' => .ok (.typed .str, {}, t')
+    | none => match stripPrefix? "table".toList t with
+      | some t' => .ok (.table, {}, t')
+      | none =>
+        let intCase (uns : Bool) (t' : Str) : R (Kind × TyInfo × Str) :=
+          let (sfx, t'') := firstSuffix ["16".toList, "32".toList, "64".toList] t'
+          .ok (.typed .int, { precision := some (if sfx.isEmpty then 32 else digitsToNat sfx),
+                              unsigned := some uns }, t'')
+        match stripPrefix? "uint".toList t with
+        | some t' => intCase true t'
+        | none => match stripPrefix? "int".toList t with
+          | some t' => intCase false t'
+          | none => match stripPrefix? "float".toList t with
+            | some t' =>
+              let (sfx, t'') := firstSuffix ["32".toList, "64".toList, "128".toList] t'
+              .ok (.typed .float, { precision := some (if sfx.isEmpty then 64 else digitsToNat sfx) }, t'')
+            | none => .error .fail     -- "Type not recognized"
+
+/-- `part_type` on the text after the name: `\s+` then one of the type patterns -/
 def partType (r : Str) : R (Kind × TyInfo × Str) :=
   match r with
-  | c :: _ =>
-    if !isWs c then .error .fail else
-    let t := dropWs r
-    match stripPrefix? "bool".toList t with
-    | some t' => .ok (.typed .bool, {}, t')
-    | none => match stripPrefix? "str".toList t with
-      | some t' => .ok (.typed .str, {}, t')
-      | none => match stripPrefix? "table".toList t with
-        | some t' => .ok (.table, {}, t')
-        | none =>
-          let intCase (uns : Bool) (t' : Str) : R (Kind × TyInfo × Str) :=
-            let (sfx, t'') := firstSuffix ["16".toList, "32".toList, "64".toList] t'
-            .ok (.typed .int, { precision := some (if sfx.isEmpty then 32 else digitsToNat sfx),
-                                unsigned := some uns }, t'')
-          match stripPrefix? "uint".toList t with
-          | some t' => intCase true t'
-          | none => match stripPrefix? "int".toList t with
-            | some t' => intCase false t'
-            | none => match stripPrefix? "float".toList t with
-              | some t' =>
-                let (sfx, t'') := firstSuffix ["32".toList, "64".toList, "128".toList] t'
-                .ok (.typed .float, { precision := some (if sfx.isEmpty then 64 else digitsToNat sfx) }, t'')
-              | none => .error .fail     -- "Type not recognized"
+  | c :: _ => if !isWs c then .error .fail else partTypeCore (dropWs r)
   | [] => .error .fail
 
 /-! ### line record (`Node` after `_determine_node`) -/
